@@ -546,11 +546,22 @@ func (c *Ctx) cellWrite(st *State, name, vs string, addr, v Term) {
 	// unknown pointer: update whichever memory holds the cell
 	isE := isElemTerm(addr)
 	m := c.memGet(st, name, vs)
-	c.memSet(st, name, Ite(isE, m, Store(m, addr, v)))
+	// both arms are named memories, so that reads can walk through this write (store chain / frames)
+	c.memSet(st, name, Store(m, addr, v))
+	stored := st.mem[name]
+	c.memSet(st, name, Ite(isE, m, stored))
+	if st.mem[name].S != m.S && st.mem[name].S != stored.S {
+		c.mergeOf[st.mem[name].S] = []Term{m, stored}
+	}
 	en := "E" + name[1:]
 	e := c.elemGet(st, en, vs)
 	arr, idx := dynArr(addr), c.dynIdx(addr)
-	c.memSet(st, en, Ite(isE, Store(e, arr, Store(Select(e, arr), idx, v)), e))
+	c.memSet(st, en, Store(e, arr, Store(Select(e, arr), idx, v)))
+	estored := st.mem[en]
+	c.memSet(st, en, Ite(isE, estored, e))
+	if st.mem[en].S != e.S && st.mem[en].S != estored.S {
+		c.mergeOf[st.mem[en].S] = []Term{estored, e}
+	}
 }
 
 func (c *Ctx) elemWrite(st *State, name, vs string, arr, idx, v Term) {
